@@ -334,9 +334,19 @@ def finish(ctx, level="proof"):
     """classify, print, write evidence, return exit code"""
     pid = ctx.pid
     os.makedirs(REPLAY, exist_ok=True)
-    if ctx.cov.get("evaluations", 0) == 0 and not any(p["kind"] == "harness" for p in ctx.problems):
-        # a check that explored nothing has shown nothing about the real code: never a silent PASS
-        ctx.problem("harness", "no case was explored against the real code (empty generators or skipped stages)")
+    if not any(p["kind"] == "harness" for p in ctx.problems):
+        # a check that explored (almost) nothing has shown nothing about the real code: never a silent PASS
+        try:
+            floors = json.load(open(os.path.join(VERIF, "harness", "min_exploration.json")))["floors"].get(pid, {})
+        except Exception as e:
+            floors = {}
+            ctx.problem("harness", "harness/min_exploration.json missing or unreadable", e)
+        for key, floor in sorted(floors.items()):
+            got = ctx.cov.get(key, 0) or 0
+            if got < max(1, floor):
+                ctx.problem("harness", "explored only %d %s against the real code (floor %d): generators or stages were lost" % (got, key, floor))
+        if ctx.cov.get("evaluations", 0) == 0:
+            ctx.problem("harness", "no case was explored against the real code (empty generators or skipped stages)")
     known = [k for k in load_known() if k["property"] == pid and k["status"] == "open"]
     new_viol, known_hit = [], {}
     for v in ctx.violations:
